@@ -133,6 +133,10 @@ pub fn project_hook(stderr: &str) -> (Vec<Value>, String) {
 
 /// Write project.json + binary for one generated input; returns (pcode path, binary path).
 pub fn materialize(dir: &str, id: &str, rng: &mut Rng, knobs: &Knobs, kind: &str) -> (String, String) {
+    // replay files carry their input files (use_files): never regenerate over them
+    if std::env::var_os("VERIF_USE_FILES").is_some() && std::path::Path::new(&format!("{}/{}.pcode.json", dir, id)).exists() {
+        return (format!("{}/{}.pcode.json", dir, id), format!("{}/{}.elf", dir, id));
+    }
     std::fs::create_dir_all(dir).unwrap();
     let spec = pcodegen::gen_funcs(rng, knobs);
     let (project, _end) = pcodegen::layout(&spec);
